@@ -1,6 +1,7 @@
 package verifharness
 
 import (
+	"context"
 	"fmt"
 	"runtime"
 	"sync"
@@ -177,4 +178,79 @@ func runIssuerRace(r *Run, rng *Rng, nsubs, rounds, fault int) {
 			env.violate("final-audit:"+p.Class, "final audit: %s", p.Msg)
 		}
 	}
+}
+
+// TestC04Level2Boundary (thorough tier): one log grown across 65 536 leaves,
+// where the first level-2 tile appears; every publication in the window
+// 65 530..65 545 is audited byte-exactly.
+func TestC04Level2Boundary(t *testing.T) {
+	r := NewRun(t, "C04", "level2boundary")
+	r.Rule = "one log built to 65 528 leaves in large rounds, then grown by rounds of 1-3 entries (with a restart and a crash+recovery inside the window) to 65 545; every publication in the window is audited byte-exactly against the reference rendering incl. tile/2/000.p/1 and tile/1/255 -> tile/1/000..255; distinct = tree size at publication"
+	rng := NewRng(r.Seed, "c04big")
+	env := NewLogEnv(r, rng.Fork("env"))
+	defer env.Cleanup()
+	h := &History{Start: 0}
+	env.CaseInfo = func() any { return map[string]any{"workload": "level2-boundary", "size": env.TruthLen()} }
+	simNow.Add(1000)
+	if err := env.Create(nil); err != nil {
+		t.Fatal(err)
+	}
+	li, err := env.Load("big", nil)
+	if err != nil {
+		t.Fatal(err)
+	}
+	erng := rng.Fork("entries")
+	grow := func(k int) {
+		var subs []*Sub
+		for i := 0; i < k; i++ {
+			subs = append(subs, li.Submit(genEntry(erng, ShapeBlobX509), false))
+		}
+		simNow.Add(1000)
+		if err, _ := li.Sequence(nil); err != nil {
+			t.Fatalf("round failed: %v", err)
+		}
+		for _, s := range subs {
+			li.WaitAck(context.Background(), s)
+		}
+	}
+	for env.TruthLen() < 65528 {
+		grow(min(4000, 65528-env.TruthLen()))
+	}
+	env.AuditPub = true
+	for env.TruthLen() < 65545 {
+		grow(1 + erng.Intn(3))
+		r.DistinctKey(fmt.Sprint("size:", env.TruthLen()))
+		r.Eval(1)
+		if n := env.TruthLen(); n == 65535 || n == 65536 || n == 65537 {
+			// restart in the window
+			li.Abandon()
+			simNow.Add(10)
+			li, err = env.Load("big2", nil)
+			if err != nil {
+				env.violate("restart-failed", "LoadLog at size %d failed: %v", n, err)
+				return
+			}
+		}
+	}
+	// crash after the lock commit of a round that crosses nothing, recover, audit
+	li.Submit(genEntry(erng, ShapeBlobX509), false)
+	simNow.Add(10)
+	_, want := (&RoundPlan{Crash: &CrashSpec{Phase: "tiles", Mask: 0x5}}).Install(li.In)
+	li.Sequence(want)
+	li.Abandon()
+	simNow.Add(10)
+	li, err = env.Load("big3", nil)
+	if err != nil {
+		env.violate("restart-failed", "LoadLog after a crash at the level-2 boundary failed: %v", err)
+		return
+	}
+	grow(2)
+	li.Abandon()
+	if sth := env.PubSTH(); sth != nil {
+		for _, p := range env.Audit(sth.Size, sth.Timestamp, 0) {
+			env.violate("final-audit:"+p.Class, "final audit at size %d: %s", sth.Size, p.Msg)
+		}
+	}
+	env.FinalChecks()
+	_ = h
 }
